@@ -511,6 +511,47 @@ impl<'a> Field<'a> {
     }
 }
 
+/// The `Debug` output of a table follows resolved offsets recursively. Offsets
+/// in (malformed) font data can be nested arbitrarily deep and any number of
+/// offsets can share one target, so the recursion depth and the total number
+/// of tables and arrays printed by one top-level call are limited; what lies
+/// beyond the limits is printed as `..`.
+const MAX_DEBUG_DEPTH: u32 = 64;
+const MAX_DEBUG_NODES: u32 = 1 << 20;
+
+std::thread_local! {
+    /// (current nesting depth, nodes printed by the current top-level call)
+    static DEBUG_STATE: std::cell::Cell<(u32, u32)> = const { std::cell::Cell::new((0, 0)) };
+}
+
+/// Accounts for one table or array while it is being printed.
+struct DebugGuard;
+
+impl DebugGuard {
+    /// Returns `None` if a limit has been reached.
+    fn enter() -> Option<Self> {
+        DEBUG_STATE.with(|state| {
+            let (depth, nodes) = state.get();
+            // a top-level call starts with a fresh budget
+            let nodes = if depth == 0 { 0 } else { nodes };
+            if depth >= MAX_DEBUG_DEPTH || nodes >= MAX_DEBUG_NODES {
+                return None;
+            }
+            state.set((depth + 1, nodes + 1));
+            Some(DebugGuard)
+        })
+    }
+}
+
+impl Drop for DebugGuard {
+    fn drop(&mut self) {
+        DEBUG_STATE.with(|state| {
+            let (depth, nodes) = state.get();
+            state.set((depth.saturating_sub(1), nodes));
+        })
+    }
+}
+
 /// A wrapper type that implements `Debug` for any table.
 struct DebugPrintTable<'a, 'b>(pub &'b (dyn SomeTable<'a> + 'a));
 
@@ -563,6 +604,9 @@ impl<'a> Debug for FieldType<'a> {
 
 impl std::fmt::Debug for DebugPrintTable<'_, '_> {
     fn fmt(&self, f: &mut std::fmt::Formatter) -> std::fmt::Result {
+        let Some(_guard) = DebugGuard::enter() else {
+            return write!(f, "{} {{ .. }}", self.0.type_name());
+        };
         let mut debug_struct = f.debug_struct(self.0.type_name());
         for field in self.0.iter() {
             debug_struct.field(field.name, &field.value);
@@ -589,6 +633,9 @@ impl<'a> Debug for dyn SomeString<'a> + 'a {
 
 impl std::fmt::Debug for DebugPrintArray<'_, '_> {
     fn fmt(&self, f: &mut std::fmt::Formatter) -> std::fmt::Result {
+        let Some(_guard) = DebugGuard::enter() else {
+            return write!(f, "[..]");
+        };
         let mut debug_list = f.debug_list();
         let mut idx = 0;
         while let Some(item) = self.0.get(idx) {
@@ -781,5 +828,53 @@ impl<'a> From<Offset32> for FieldType<'a> {
 impl<T: Into<OffsetType> + Clone> From<Nullable<T>> for OffsetType {
     fn from(src: Nullable<T>) -> Self {
         src.offset().clone().into()
+    }
+}
+
+#[cfg(test)]
+mod tests {
+    use crate::{tables::colr::Paint, FontData, FontRead};
+
+    /// A chain of `levels` PaintTranslate tables, each one pointing four
+    /// bytes ahead (into its own dx/dy fields), ending in a PaintSolid.
+    fn translate_chain(levels: usize) -> Vec<u8> {
+        let mut data = Vec::new();
+        for _ in 0..levels {
+            data.extend_from_slice(&[14, 0, 0, 4]);
+        }
+        data.extend_from_slice(&[2, 0, 0, 0x40, 0, 0, 0, 0]);
+        data
+    }
+
+    /// Printing deeply nested offsets used to recurse once per level and
+    /// overflow the stack.
+    #[test]
+    fn debug_output_limits_nesting_depth() {
+        let data = translate_chain(100_000);
+        let paint = Paint::read(FontData::new(&data)).unwrap();
+        let printed = format!("{paint:?}");
+        assert!(printed.contains("PaintTranslate { .. }"));
+        assert!(printed.len() < 100_000);
+        // shallow nesting is printed completely
+        let data = translate_chain(3);
+        let paint = Paint::read(FontData::new(&data)).unwrap();
+        let printed = format!("{paint:?}");
+        assert!(printed.contains("PaintSolid"));
+        assert!(!printed.contains(".."));
+    }
+
+    /// Offsets that share their target used to be printed once per path:
+    /// 2^levels times for a chain of PaintComposite tables whose source and
+    /// backdrop offsets are equal.
+    #[test]
+    fn debug_output_limits_total_size() {
+        let mut data = Vec::new();
+        for _ in 0..60 {
+            data.extend_from_slice(&[32, 0, 0, 8, 3, 0, 0, 8]);
+        }
+        data.extend_from_slice(&[2, 0, 0, 0x40, 0, 0, 0, 0]);
+        let paint = Paint::read(FontData::new(&data)).unwrap();
+        let printed = format!("{paint:?}");
+        assert!(printed.contains("PaintComposite { .. }"));
     }
 }
